@@ -244,11 +244,15 @@ impl IceConn {
             return;
         }
 
+        #[cfg(rustrtc_verif)]
+        verif_sched::point("pair:before-write");
         *self.remote_addr.write() = addr;
     }
 
     pub(crate) fn set_remote_addr_from_signaling(&self, addr: SocketAddr, reason: &'static str) {
         self.reset_latch();
+        #[cfg(rustrtc_verif)]
+        verif_sched::point("sig:before-remote-write");
         *self.remote_addr.write() = addr;
         trace!(
             "IceConn: signaling RTP remote set to {} ({}), latch reset",
@@ -261,6 +265,8 @@ impl IceConn {
     pub fn reset_latch(&self) {
         self.rtp_latched.store(false, Ordering::Relaxed);
         self.rtcp_latched.store(false, Ordering::Relaxed);
+        #[cfg(rustrtc_verif)]
+        verif_sched::point("reset:before-lock");
         let max = self.probation_max_packets.load(Ordering::Relaxed);
         *self.probation.lock() = if self.latch_on_rtp.load(Ordering::Relaxed) && max > 0 {
             Some(RtpProbationState {
@@ -271,6 +277,8 @@ impl IceConn {
         } else {
             None
         };
+        #[cfg(rustrtc_verif)]
+        verif_sched::point("reset:unlocked");
     }
 
     pub fn set_dtls_receiver(&self, receiver: Arc<dyn PacketReceiver>) {
@@ -542,6 +550,8 @@ impl PacketReceiver for IceConn {
                         let ts = u32::from_be_bytes([packet[4], packet[5], packet[6], packet[7]]);
                         let marker = (packet[1] & 0x80) != 0;
 
+                        #[cfg(rustrtc_verif)]
+                        verif_sched::point("recv:before-lock");
                         let mut probation_guard = self.probation.lock();
                         if let Some(ref mut prob) = *probation_guard {
                             prob.total_packets = prob.total_packets.saturating_add(1);
@@ -584,6 +594,8 @@ impl PacketReceiver for IceConn {
                             }
 
                             let total = prob.total_packets;
+                            #[cfg(rustrtc_verif)]
+                            verif_sched::point("recv:after-move");
                             let winner: Option<SocketAddr>;
 
                             // Rule 1: candidate with marker=true and the
@@ -631,12 +643,16 @@ impl PacketReceiver for IceConn {
                                 // Commit the latch.
                                 *probation_guard = None; // drop state
                                 drop(probation_guard);
+                                #[cfg(rustrtc_verif)]
+                                verif_sched::point("recv:unlocked");
 
                                 // `remote_addr` now holds `addr` (the probation move
                                 // above), not the stale `current_remote` snapshot.
                                 if win_addr != addr {
                                     *self.remote_addr.write() = win_addr;
                                 }
+                                #[cfg(rustrtc_verif)]
+                                verif_sched::point("recv:before-latched-store");
                                 self.rtp_latched.store(true, Ordering::Relaxed);
                                 trace!(
                                     "IceConn: RTP latched to {} after probation \
@@ -1522,5 +1538,27 @@ impl IceConn {
             self.probation_max_packets.load(Ordering::Relaxed),
             prob,
         )
+    }
+}
+
+/// Verification hook (C18, `--cfg rustrtc_verif` only; add-only): named yield points in
+/// `receive`, `reset_latch`, `set_remote_addr_from_signaling` and
+/// `set_remote_addr_from_selected_pair`. The harness installs a callback that parks the calling
+/// thread at a point until its scheduler releases it, so chosen interleavings of an API call with a
+/// concurrent `receive` are executed on the real code. Without a callback a point is a no-op.
+#[cfg(rustrtc_verif)]
+pub mod verif_sched {
+    use std::sync::{Arc, RwLock};
+    pub type Hook = Arc<dyn Fn(&'static str) + Send + Sync>;
+    static HOOK: RwLock<Option<Hook>> = RwLock::new(None);
+    pub fn set(hook: Option<Hook>) {
+        *HOOK.write().unwrap() = hook;
+    }
+    #[inline]
+    pub fn point(name: &'static str) {
+        let hook = HOOK.read().unwrap().clone();
+        if let Some(hook) = hook {
+            hook(name);
+        }
     }
 }
